@@ -123,6 +123,8 @@ type vmEffect struct {
 	detail   string // when !ok
 	hasCase  bool
 	variants []string
+	pops     int // pop/push calls on the first normal path (for the symbolic stack of the emitter analysis)
+	pushes   int
 }
 
 func emVMEffects(c *Ctx) map[string]vmEffect {
@@ -189,7 +191,8 @@ func emVMEffects(c *Ctx) map[string]vmEffect {
 		fatalf("anchor unresolved: runInstruction has no switch over instruction.Opcode()")
 	}
 	type st struct {
-		h, loop int
+		h, loop       int
+		pops, pushes int
 	}
 	out := map[string]vmEffect{}
 	for _, cl := range sw.Body.List {
@@ -206,9 +209,11 @@ func emVMEffects(c *Ctx) map[string]vmEffect {
 					fn := CalleeOf(info, call)
 					if isIn(fn, push) {
 						s.h++
+						s.pushes++
 					}
 					if isIn(fn, pop) {
 						s.h--
+						s.pops++
 					}
 				}
 				return true
@@ -274,6 +279,7 @@ func emVMEffects(c *Ctx) map[string]vmEffect {
 			}
 			if i == 0 {
 				eff.delta, eff.loopPop = r.h, r.loop
+				eff.pops, eff.pushes = r.pops, r.pushes
 			}
 		}
 		sort.Strings(eff.variants)
@@ -304,6 +310,7 @@ type emSt struct {
 	h        lin
 	reach    bool
 	recorded map[string][]lin // label key → heights of jumps seen before its emission
+	recTop   map[string][]string // label key → stack-top provenance of those jumps (parallel to recorded)
 	emitted  map[string]lin   // label key → height at emission
 	emitCnt  map[string]int
 	created  map[string]bool // labels created by mangleLabel in this function
@@ -314,6 +321,7 @@ type emSt struct {
 	nuFact   map[string]int
 	caseKey  string
 	problems []string
+	stk      []string                // symbolic operand stack (entries pushed since function entry); "?" = unknown
 	opVars   map[types.Object]string // opcode-typed locals → constant currently held
 	world    int                     // 0 unforced, 1 = all results non-null, 2 = tail results null
 }
@@ -323,6 +331,10 @@ func emClone(s *emSt) *emSt {
 	n.recorded = map[string][]lin{}
 	for k, v := range s.recorded {
 		n.recorded[k] = append([]lin(nil), v...)
+	}
+	n.recTop = map[string][]string{}
+	for k, v := range s.recTop {
+		n.recTop[k] = append([]string(nil), v...)
 	}
 	n.emitted = map[string]lin{}
 	for k, v := range s.emitted {
@@ -362,6 +374,7 @@ func emClone(s *emSt) *emSt {
 		n.opVars[k] = v
 	}
 	n.world = s.world
+	n.stk = append([]string(nil), s.stk...)
 	return n
 }
 
@@ -425,6 +438,37 @@ func (e *emitter) compatible(s *emSt, a, b lin) bool {
 		return true
 	}
 	return false
+}
+
+func (s *emSt) spush(sym string) { s.stk = append(s.stk, sym) }
+func (s *emSt) spop(n int) {
+	for i := 0; i < n; i++ {
+		if len(s.stk) > 0 {
+			s.stk = s.stk[:len(s.stk)-1]
+		}
+	}
+}
+func (s *emSt) stop() string {
+	if len(s.stk) == 0 {
+		return ""
+	}
+	return s.stk[len(s.stk)-1]
+}
+
+// resultLike: the entry is a branch result — a ν-symbol that is in tail position somewhere
+// in this function, or a constant pushed as the value of a branch.
+func (e *emitter) resultLike(sym string) bool {
+	return strings.HasPrefix(sym, "const") || e.tailSyms[sym]
+}
+
+// sameTop: two edges reaching one label must agree on what the value on top of the stack
+// IS, not only on how many values there are: either the same symbolic value or both the
+// result of their branch.
+func (e *emitter) sameTop(a, b string) bool {
+	if a == "" || b == "" || a == "?" || b == "?" || a == b {
+		return true
+	}
+	return e.resultLike(a) && e.resultLike(b)
 }
 
 func (e *emitter) markTails(s *emSt) {
@@ -546,22 +590,38 @@ func (e *emitter) opEffect(s *emSt, op string, call *ast.CallExpr, ctor *ast.Cal
 		key := e.labelKey(s, arg(1))
 		s.emitCnt[key]++
 		rec := s.recorded[key]
+		tops := s.recTop[key]
+		topOf := func(i int) string {
+			if i < len(tops) {
+				return tops[i]
+			}
+			return "?"
+		}
 		if s.reach {
 			e.markTails(s)
-			for _, r := range rec {
+			for i, r := range rec {
 				if !e.compatible(s, r, s.h) {
 					e.problem(s, call.Pos(), "label %s is reached with operand-stack height %s by fall-through but %s by a jump (they differ whether or not the branch results are null)", key, s.h, r)
+				} else if !e.collect && e.w1(r).eq(e.w1(s.h)) && !e.sameTop(s.stop(), topOf(i)) {
+					e.problem(s, call.Pos(), "label %s is reached with %s on top of the operand stack by fall-through but with %s by a jump: the code after the label treats two different values as the same one", key, s.stop(), topOf(i))
 				}
 			}
 		} else if len(rec) > 0 {
 			s.h = rec[0]
 			s.reach = true
-			for _, r := range rec[1:] {
+			s.stk = nil
+			if t := topOf(0); t != "" {
+				s.stk = []string{t}
+			}
+			for i, r := range rec[1:] {
 				if !e.compatible(s, r, rec[0]) {
 					e.problem(s, call.Pos(), "label %s is reached with different operand-stack heights by its jumps: %s vs %s (they differ whether or not the branch results are null)", key, rec[0], r)
+				} else if !e.collect && e.w1(r).eq(e.w1(rec[0])) && !e.sameTop(topOf(0), topOf(i+1)) {
+					e.problem(s, call.Pos(), "label %s is reached with %s on top of the operand stack by one jump but with %s by another", key, topOf(0), topOf(i+1))
 				}
 			}
 		}
+		delete(s.recTop, key)
 		if s.reach {
 			s.emitted[key] = s.h
 		}
@@ -575,6 +635,7 @@ func (e *emitter) opEffect(s *emSt, op string, call *ast.CallExpr, ctor *ast.Cal
 		h := s.h
 		if op == "Opcode_JumpIfFalse" {
 			h = h.add(linC(-1))
+			s.spop(1)
 		}
 		if op == "Opcode_Jump" {
 			e.markTails(s)
@@ -585,6 +646,7 @@ func (e *emitter) opEffect(s *emSt, op string, call *ast.CallExpr, ctor *ast.Cal
 			}
 		} else {
 			s.recorded[key] = append(s.recorded[key], h)
+			s.recTop[key] = append(s.recTop[key], s.stop())
 		}
 		if op == "Opcode_Jump" {
 			s.h = h
@@ -607,6 +669,7 @@ func (e *emitter) opEffect(s *emSt, op string, call *ast.CallExpr, ctor *ast.Cal
 	case "Opcode_Throw":
 		if s.reach {
 			s.h = s.h.add(linC(-1))
+			s.spop(1)
 		}
 		s.reach = false
 		return linC(0)
@@ -615,6 +678,7 @@ func (e *emitter) opEffect(s *emSt, op string, call *ast.CallExpr, ctor *ast.Cal
 		if a := arg(2); a != nil && s.reach {
 			key := e.labelKey(s, a)
 			s.recorded[key] = append(s.recorded[key], s.h.add(linC(1)))
+			s.recTop[key] = append(s.recTop[key], "exception object")
 		}
 		return linC(0)
 	case "Opcode_Call_Imm":
@@ -626,8 +690,10 @@ func (e *emitter) opEffect(s *emSt, op string, call *ast.CallExpr, ctor *ast.Cal
 				take.s[k] = v
 			}
 		}
+		s.stk = []string{"op:call"}
 		return r.sub(take)
 	case "Opcode_Spawn", "Opcode_Call_Val", "Opcode_HostCall":
+		s.stk = []string{"op:call"}
 		if prevLast == nil {
 			e.problem(s, call.Pos(), "%s is not immediately preceded by a push of its argument count", op)
 			return linC(0)
@@ -653,6 +719,21 @@ func (e *emitter) opEffect(s *emSt, op string, call *ast.CallExpr, ctor *ast.Cal
 			s.last = &vv
 		}
 	}
+	if s.reach {
+		if op == "Opcode_Duplicate" {
+			s.spush(s.stop())
+		} else {
+			s.spop(eff.pops)
+			for i := 0; i < eff.pushes; i++ {
+				switch op {
+				case "Opcode_Copy_Push", "Opcode_Cloning_Push":
+					s.spush("const:" + strings.TrimPrefix(op, "Opcode_"))
+				default:
+					s.spush("op:" + strings.TrimPrefix(op, "Opcode_"))
+				}
+			}
+		}
+	}
 	return linC(eff.delta)
 }
 
@@ -668,7 +749,7 @@ func (e *emitter) walkFn(fd *ast.FuncDecl) (exits []*emSt, overflow bool) {
 func (e *emitter) walkFnOnce(fd *ast.FuncDecl) (exits []*emSt, overflow bool) {
 	info := e.info
 	e.cur = fd
-	init := &emSt{reach: true, recorded: map[string][]lin{}, emitted: map[string]lin{}, emitCnt: map[string]int{}, created: map[string]bool{},
+	init := &emSt{reach: true, recTop: map[string][]string{}, recorded: map[string][]lin{}, emitted: map[string]lin{}, emitCnt: map[string]int{}, created: map[string]bool{},
 		alias: map[string]string{}, ints: map[types.Object]lin{}, tails: map[string]bool{}, nuFact: map[string]int{}, opVars: map[types.Object]string{}}
 	var handleCall func(s *emSt, call *ast.CallExpr)
 	handleCall = func(s *emSt, call *ast.CallExpr) {
@@ -679,8 +760,11 @@ func (e *emitter) walkFnOnce(fd *ast.FuncDecl) (exits []*emSt, overflow bool) {
 		if fn == e.insert && len(call.Args) >= 1 {
 			if ctor, ok := ast.Unparen(call.Args[0]).(*ast.CallExpr); ok {
 				if cf := CalleeOf(info, ctor); cf != nil && e.ctors[cf] {
+					h0, n0, t0 := s.h, len(s.stk), s.stop()
 					e.emit(s, call, ctor)
-					s.tails = map[string]bool{} // an instruction follows: previous results are consumed or kept below
+					if !(s.h.eq(h0) && len(s.stk) == n0 && s.stop() == t0) {
+						s.tails = map[string]bool{} // the instruction touched the stack: previous results are consumed or buried
+					}
 					return
 				}
 			}
@@ -733,7 +817,27 @@ func (e *emitter) walkFnOnce(fd *ast.FuncDecl) (exits []*emSt, overflow bool) {
 		if sm, ok := e.summ[fn]; ok && sm != nil {
 			s.h = s.h.add(*sm)
 			s.tails = map[string]bool{}
+			switch {
+			case sm.c < 0:
+				s.spop(-sm.c + 1)
+				s.spush("op:" + fn.Name())
+			case sm.c == 0:
+				s.spop(1)
+				s.spush("op:" + fn.Name())
+			default:
+				s.spush("op:" + fn.Name())
+			}
 			return
+		}
+		// statements may leave their construct by a jump to a label that was emitted at the
+		// statement-level base height (break/continue → loop labels, return → cleanup label):
+		// a loop that keeps a value on the operand stack across its body leaks it on every
+		// such exit. So inside compileStmt, a body block / nested statement is compiled at
+		// the height the statement started with.
+		if e.cur.Name.Name == "compileStmt" && !e.collect && (fn.Name() == "compileBlock" || fn.Name() == "compileStmt") {
+			if h1 := e.w1(s.h); len(h1.s) != 0 || h1.c != 0 {
+				e.problem(s, call.Pos(), "%s is compiled while the statement holds %s extra value(s) on the operand stack: a break/continue/return inside it jumps to a label emitted at the base height and leaves them behind", exprStr(call), s.h)
+			}
 		}
 		// conventions (induction hypotheses, each checked on its own function)
 		switch fn.Name() {
@@ -748,6 +852,10 @@ func (e *emitter) walkFnOnce(fd *ast.FuncDecl) (exits []*emSt, overflow bool) {
 				s.tails = map[string]bool{}
 				for k := range v.s {
 					s.tails[k] = true
+					s.spush(k)
+				}
+				if len(v.s) == 0 && v.c > 0 {
+					s.spush("op:value")
 				}
 			}
 		}
@@ -984,6 +1092,37 @@ func (e *emitter) walkFnOnce(fd *ast.FuncDecl) (exits []*emSt, overflow bool) {
 			post.h = before.h
 		}
 		post.tails = map[string]bool{}
+		post.stk = append([]string(nil), before.stk...)
+		if mixed || d0.c != 0 || len(d0.s) != 0 {
+			post.stk = append(post.stk, "?")
+		}
+		// iterations that start unreachable (each begins at a label) but may END reachable —
+		// some path through the body does not leave by a jump — make the code after the loop
+		// reachable by fall-through from the last iteration, with that iteration's stack
+		if !before.reach {
+			for _, en := range ends {
+				if en.reach {
+					post.reach = true
+					post.h = en.h
+					post.stk = append([]string(nil), en.stk...)
+					post.tails = map[string]bool{}
+					for k, v := range en.tails {
+						post.tails[k] = v
+					}
+					break
+				}
+			}
+		}
+		for k, v := range post.recorded {
+			_ = v
+			if _, ok := post.recTop[k]; !ok {
+				for _, en := range ends {
+					if t, ok := en.recTop[k]; ok {
+						post.recTop[k] = t
+					}
+				}
+			}
+		}
 		return post, true
 	}
 	// loops: sub-expressions inside count as value-producing
